@@ -401,18 +401,19 @@ pub fn judge(w: &World, fmt: &str, sim_now: i64, obs: &Obs, stats: &mut Stats) -
         }
     }
     let mut scratch = Stats::new();
-    if judge_inner(&w2, fmt, sim_now, obs, &mut scratch).is_empty() {
-        stats.bump("probe.nested_tag_invisible");
-        return vs
-            .into_iter()
-            .map(|mut x| {
+    let vs2 = judge_inner(&w2, fmt, sim_now, obs, &mut scratch);
+    let nested: Vec<&String> = w.live_tags().filter(|t| t.kind == TagKind::Nested).map(|t| &t.name).collect();
+    vs.into_iter()
+        .map(|mut x| {
+            // explained by the invisibility of nested tags: gone once the model does not see them either
+            if !vs2.iter().any(|y| y.clause == x.clause && y.field == x.field) {
+                stats.bump("probe.nested_tag_invisible");
                 x.clause = format!("nested-tag-invisible:{}", x.clause);
-                x.detail = format!("{}; nested tags: {:?}", x.detail, w.live_tags().filter(|t| t.kind == TagKind::Nested).map(|t| &t.name).collect::<Vec<_>>());
-                x
-            })
-            .collect();
-    }
-    vs
+                x.detail = format!("{}; nested tags: {:?}", x.detail, nested);
+            }
+            x
+        })
+        .collect()
 }
 
 fn judge_inner(w: &World, fmt: &str, sim_now: i64, obs: &Obs, stats: &mut Stats) -> Vec<Violation> {
